@@ -1,5 +1,6 @@
 import ShellOp.Drv.Worker
 import ShellOp.Model.Routing
+import ShellOp.Model.WaitHead
 /-! Line-protocol suite for C03: the shared worker suite (`Drv/Worker`) plus the op `schedfan`
 (`Model/Routing`: the links map of the real schedule controller and the fan-out of one tick). -/
 namespace ShellOp.Drv.C03
@@ -13,8 +14,45 @@ def binding? (s : String) : Option Routing.SchedBinding :=
 
 def sortStrs (l : List String) : List String := (l.toArray.qsort (· < ·)).toList
 
+/-- A change of queue `q` made through the queue's public API by somebody who is not its worker
+(AddFirst, Remove, Filter of a user of the queue package). Not a label of the proven step machine: the
+driver edits the items, the worker's later steps then read what is there, as the code does. -/
+def extItems (st : Worker.St) (q : Nat) (f : Queue.Items → Queue.Items) : Worker.St × String :=
+  match st.s.qs q with
+  | none => (st, "bad-op")
+  | some qs =>
+    let s' : ShellOp.Worker.State := { st.s with qs := ShellOp.Worker.upd st.s.qs q { qs with items := f qs.items } }
+    ({ st with s := s' }, Worker.obs s')
+
+/-- `e:items` — one head check of the wait loop: expired?, what the queue held -/
+def look? (s : String) : Option WaitHead.Look :=
+  match s.splitOn ":" with
+  | [e, its] => (Worker.items? its).map fun i => ⟨e == "1", i, i⟩
+  | _ => none
+
 def step (st : Worker.St) (toks : List String) : Worker.St × String :=
   match toks with
+  | "waithead" :: args =>
+    -- waitForTask over what the queue held at each of its looks (Model/WaitHead): the task it returns
+    match (kv? "sleep" args).bind String.toNat?, (kv? "first" args).bind Worker.items?, kv? "looks" args with
+    | some sleep, some first, some ls =>
+      let ls := if ls == "-" then [] else ls.splitOn ";"
+      match ls.mapM look? with
+      | some looks => match WaitHead.waitForTask sleep ⟨true, first, first⟩ looks with
+        | some (some t) => (st, toString t)
+        | some none => (st, "nil")
+        | none => (st, "waiting")
+      | none => (st, "bad-op")
+    | _, _, _ => (st, "bad-op")
+  | ["ext", "addfirst", q, t] => match q.toNat?, t.toNat? with
+    | some q, some t => extItems st q (fun its => Queue.addFirst its t)
+    | _, _ => (st, "bad-op")
+  | ["ext", "remove", q, t] => match q.toNat?, t.toNat? with
+    | some q, some t => extItems st q (fun its => (Queue.remove its t).2)
+    | _, _ => (st, "bad-op")
+  | ["ext", "filter", q, keep] => match q.toNat?, natList? keep with
+    | some q, some keep => extItems st q (fun its => Queue.filter its (fun x => keep.contains x))
+    | _, _ => (st, "bad-op")
   | "schedfan" :: args =>
     -- EnableScheduleBindings over the bindings the loader produced, then HandleEvent for one crontab:
     -- the (binding, queue) infos, sorted (Go walks the map in any order)
